@@ -413,7 +413,7 @@ fn jub_family(p: &Prop) {
     type F = Jub;
     p.sub("jubjub.ops", OPS_RULE, p.tier.pick(4000, 160_000), 16, || op_strategy(true), |c| {
         let ctx = context::<F>(c)?;
-        ops_generic::<F>(&ctx)?;
+        ops_generic::<F>(&ctx, true)?;
         ct_generic::<F>(&ctx)?;
         jub_extras(&ctx)?;
         verdict(&ctx)
@@ -429,11 +429,11 @@ fn jub_family(p: &Prop) {
         Ok(v.with(k_class(&c.op.k)).with(cl))
     });
     let codecs: Vec<Codec<F>> = vec![
-        Codec { name: "JubjubAffine:from_bytes", len: 32, big_endian: false, flag_bits: 1, slot: 32, enc: |a| a.to_bytes().to_vec(), dec: |b| JubjubAffine::from_bytes(b.try_into().unwrap()).into(), dec_unchecked: Some(ge_dec_u::<JubjubAffine>), subgroup: false, tolerate_panic: false },
-        Codec { name: "JubjubAffine:GroupEncoding::from_bytes", len: 32, big_endian: false, flag_bits: 1, slot: 32, enc: ge_enc::<JubjubAffine>, dec: ge_dec::<JubjubAffine>, dec_unchecked: None, subgroup: false, tolerate_panic: false },
-        Codec { name: "JubjubExtended:from_bytes", len: 32, big_endian: false, flag_bits: 1, slot: 32, enc: |a| ge_enc(&JubjubExtended::from(*a)), dec: |b| ge_dec::<JubjubExtended>(b).map(|g| g.to_affine()), dec_unchecked: Some(|b| ge_dec_u::<JubjubExtended>(b).map(|g| g.to_affine())), subgroup: false, tolerate_panic: false },
-        Codec { name: "JubjubSubgroup:from_bytes", len: 32, big_endian: false, flag_bits: 1, slot: 32, enc: |a| ge_enc(&JubjubSubgroup::from_raw_unchecked(a.get_u(), a.get_v())), dec: |b| ge_dec::<JubjubSubgroup>(b).map(|g| JubjubExtended::from(g).to_affine()), dec_unchecked: Some(|b| ge_dec_u::<JubjubSubgroup>(b).map(|g| JubjubExtended::from(g).to_affine())), subgroup: true, tolerate_panic: false },
-        Codec { name: "JubjubAffine:batch_from_bytes", len: 32, big_endian: false, flag_bits: 1, slot: 32, enc: |a| a.to_bytes().to_vec(), dec: |b| { let a: [u8; 32] = b.try_into().unwrap(); JubjubAffine::batch_from_bytes([[0u8; 32], a, a].into_iter()).pop().unwrap().into() }, dec_unchecked: None, subgroup: false, tolerate_panic: false },
+        Codec { name: "JubjubAffine:from_bytes", len: 32, big_endian: false, flag_bits: 1, slot: 32, enc: |a| a.to_bytes().to_vec(), dec: |b| JubjubAffine::from_bytes(b.try_into().unwrap()).into(), dec_unchecked: Some(ge_dec_u::<JubjubAffine>), subgroup: false, tolerate_panic: false, exclude: None, lenient_subgroup: false },
+        Codec { name: "JubjubAffine:GroupEncoding::from_bytes", len: 32, big_endian: false, flag_bits: 1, slot: 32, enc: ge_enc::<JubjubAffine>, dec: ge_dec::<JubjubAffine>, dec_unchecked: None, subgroup: false, tolerate_panic: false, exclude: None, lenient_subgroup: false },
+        Codec { name: "JubjubExtended:from_bytes", len: 32, big_endian: false, flag_bits: 1, slot: 32, enc: |a| ge_enc(&JubjubExtended::from(*a)), dec: |b| ge_dec::<JubjubExtended>(b).map(|g| g.to_affine()), dec_unchecked: Some(|b| ge_dec_u::<JubjubExtended>(b).map(|g| g.to_affine())), subgroup: false, tolerate_panic: false, exclude: None, lenient_subgroup: false },
+        Codec { name: "JubjubSubgroup:from_bytes", len: 32, big_endian: false, flag_bits: 1, slot: 32, enc: |a| ge_enc(&JubjubSubgroup::from_raw_unchecked(a.get_u(), a.get_v())), dec: |b| ge_dec::<JubjubSubgroup>(b).map(|g| JubjubExtended::from(g).to_affine()), dec_unchecked: Some(|b| ge_dec_u::<JubjubSubgroup>(b).map(|g| JubjubExtended::from(g).to_affine())), subgroup: true, tolerate_panic: false, exclude: None, lenient_subgroup: false },
+        Codec { name: "JubjubAffine:batch_from_bytes", len: 32, big_endian: false, flag_bits: 1, slot: 32, enc: |a| a.to_bytes().to_vec(), dec: |b| { let a: [u8; 32] = b.try_into().unwrap(); JubjubAffine::batch_from_bytes([[0u8; 32], a, a].into_iter()).pop().unwrap().into() }, dec_unchecked: None, subgroup: false, tolerate_panic: false, exclude: None, lenient_subgroup: false },
     ];
     p.sub("jubjub.encoding", ENC_RULE, p.tier.pick(4000, 160_000), 16, || enc_strategy(true), |c| enc_check::<F>(&codecs, c));
     p.enumerate(
@@ -557,11 +557,32 @@ fn secp_family(p: &Prop) {
     type F = Secp;
     p.sub("secp256k1.ops", OPS_RULE, p.tier.pick(4000, 160_000), 16, || op_strategy(false), |c| {
         let ctx = context::<F>(c)?;
-        ops_generic::<F>(&ctx)?;
+        ops_generic::<F>(&ctx, true)?;
         ct_generic::<F>(&ctx)?;
         secp_extras(&ctx, c.aux)?;
         verdict(&ctx)
     });
+    p.sub(
+        "secp256k1.batch_normalize_computed_identity",
+        "batch_normalize of [P, P - P' (identity reached by computation), Q] against the model; every case non-trivial",
+        p.tier.pick(160, 6_000),
+        16,
+        || op_strategy(false),
+        |c| {
+            let ctx = context::<F>(c)?;
+            let v = [ctx.p, ctx.p - ctx.p2, ctx.q];
+            let mut out = [K256Affine::identity(); 3];
+            vpcore::catch(|| K256::batch_normalize(&v, &mut out))
+                .map_err(|e| Failure::new("K256:batch_normalize:computed-identity-panic", format!("batch_normalize([P, P-P, Q]) panicked: {e}; P={:?}", ctx.mp)))?;
+            let want = [ctx.mp.clone(), None, ctx.mq.clone()];
+            for i in 0..3 {
+                achk!(F, "batch_normalize", out[i], want[i].clone());
+            }
+            let mut v = verdict(&ctx)?;
+            v.nontrivial = true;
+            Ok(v)
+        },
+    );
     p.sub("secp256k1.scalar", SCALAR_RULE, p.tier.pick(320, 12_000), 16, || op_strategy(false), |c| {
         let ctx = context::<F>(c)?;
         let kp = scalar_generic::<F>(&ctx)?;
@@ -571,9 +592,35 @@ fn secp_family(p: &Prop) {
         Ok(v.with(k_class(&c.k)))
     });
     let codecs: Vec<Codec<F>> = vec![
-        Codec { name: "K256Affine:from_bytes", len: 33, big_endian: true, flag_bits: 0, slot: 32, enc: ge_enc::<K256Affine>, dec: ge_dec::<K256Affine>, dec_unchecked: Some(ge_dec_u::<K256Affine>), subgroup: false, tolerate_panic: false },
-        Codec { name: "K256:from_bytes", len: 33, big_endian: true, flag_bits: 0, slot: 32, enc: |a| ge_enc(&K256::from(*a)), dec: |b| ge_dec::<K256>(b).map(|g| g.to_affine()), dec_unchecked: Some(|b| ge_dec_u::<K256>(b).map(|g| g.to_affine())), subgroup: false, tolerate_panic: false },
+        Codec { name: "K256Affine:from_bytes", len: 33, big_endian: true, flag_bits: 0, slot: 32, enc: ge_enc::<K256Affine>, dec: ge_dec::<K256Affine>, dec_unchecked: Some(ge_dec_u::<K256Affine>), subgroup: false, tolerate_panic: false, exclude: None, lenient_subgroup: false },
+        Codec { name: "K256:from_bytes", len: 33, big_endian: true, flag_bits: 0, slot: 32, enc: |a| ge_enc(&K256::from(*a)), dec: |b| ge_dec::<K256>(b).map(|g| g.to_affine()), dec_unchecked: Some(|b| ge_dec_u::<K256>(b).map(|g| g.to_affine())), subgroup: false, tolerate_panic: false, exclude: None, lenient_subgroup: false },
     ];
+    let strict: Vec<Codec<F>> = codecs.iter().map(|c| c.strict()).collect();
+    // regression (.sec1_tags): SEC1 tag 0x05 ("compact") used to be accepted and
+    // re-encoded with tag 0x02/0x03
+    let tags: Vec<(u8, u8)> = (0..=255u8).flat_map(|t| (0..3u8).map(move |w| (t, w))).collect();
+    p.enumerate(
+        "secp256k1.sec1_tags",
+        "every value of the SEC1 tag byte in front of a valid x (generator, 2G) or of zeros: decoder accepts => re-encoding equals the input",
+        tags,
+        4,
+        true,
+        |(tag, which)| {
+            let pt = match which {
+                0 => PSpec::Identity,
+                1 => PSpec::Generator,
+                _ => PSpec::SmallMul(2),
+            };
+            let r = resolve::<F>(&pt)?;
+            let mut acc = false;
+            for cd in &strict {
+                let mut b = (cd.enc)(&r.a);
+                b[0] = *tag;
+                acc |= decode_oracle(cd, &b, "encoding with tag replaced", None)?.is_some();
+            }
+            Ok(Verdict::nontrivial(if acc { "accepted" } else { "rejected" }))
+        },
+    );
     p.sub("secp256k1.encoding", ENC_RULE, p.tier.pick(4000, 160_000), 16, || enc_strategy(false), |c| enc_check::<F>(&codecs, c));
     p.enumerate(
         "secp256k1.identity_accessors",
@@ -736,7 +783,7 @@ fn c25519_family(p: &Prop) {
     type F = C25519;
     p.sub("curve25519.ops", OPS_RULE, p.tier.pick(4000, 160_000), 16, || op_strategy(true), |c| {
         let ctx = context::<F>(c)?;
-        ops_generic::<F>(&ctx)?;
+        ops_generic::<F>(&ctx, true)?;
         ct_generic::<F>(&ctx)?;
         c25519_extras(&ctx, c.aux)?;
         verdict(&ctx)
@@ -750,9 +797,11 @@ fn c25519_family(p: &Prop) {
         Ok(v.with(k_class(&c.k)))
     });
     let codecs: Vec<Codec<F>> = vec![
-        Codec { name: "Curve25519Affine:from_bytes", len: 32, big_endian: false, flag_bits: 1, slot: 32, enc: ge_enc::<Curve25519Affine>, dec: ge_dec::<Curve25519Affine>, dec_unchecked: Some(ge_dec_u::<Curve25519Affine>), subgroup: false, tolerate_panic: false },
-        Codec { name: "Curve25519:from_bytes", len: 32, big_endian: false, flag_bits: 1, slot: 32, enc: |a| ge_enc(&Curve25519::from(*a)), dec: |b| ge_dec::<Curve25519>(b).map(|g| g.to_affine()), dec_unchecked: Some(|b| ge_dec_u::<Curve25519>(b).map(|g| g.to_affine())), subgroup: false, tolerate_panic: false },
+        Codec { name: "Curve25519Affine:from_bytes", len: 32, big_endian: false, flag_bits: 1, slot: 32, enc: ge_enc::<Curve25519Affine>, dec: ge_dec::<Curve25519Affine>, dec_unchecked: Some(ge_dec_u::<Curve25519Affine>), subgroup: false, tolerate_panic: false, exclude: None, lenient_subgroup: false },
+        Codec { name: "Curve25519:from_bytes", len: 32, big_endian: false, flag_bits: 1, slot: 32, enc: |a| ge_enc(&Curve25519::from(*a)), dec: |b| ge_dec::<Curve25519>(b).map(|g| g.to_affine()), dec_unchecked: Some(|b| ge_dec_u::<Curve25519>(b).map(|g| g.to_affine())), subgroup: false, tolerate_panic: false, exclude: None, lenient_subgroup: false },
     ];
+    let strict: Vec<Codec<F>> = codecs.iter().map(|c| c.strict()).collect();
+    // regression (.noncanonical): F25, y >= p and x = 0 with the sign bit used to be accepted
     p.sub("curve25519.encoding", ENC_RULE, p.tier.pick(4000, 160_000), 16, || enc_strategy(true), |c| enc_check::<F>(&codecs, c));
     p.enumerate(
         "curve25519.noncanonical",
@@ -761,7 +810,7 @@ fn c25519_family(p: &Prop) {
         4,
         true,
         |(label, bytes)| {
-            for cd in &codecs {
+            for cd in &strict {
                 let got = decode_oracle(cd, bytes, label, None)?;
                 ensure!(got.is_none(), format!("{}:noncanonical", cd.name), "{} accepted {label}", cd.name);
             }
@@ -782,7 +831,49 @@ fn c25519_family(p: &Prop) {
     p.enumerate("curve25519.batch_normalize_edge", BATCH_EDGE_RULE, vec![0u8], 1, true, |_| batch_edge::<F>());
 }
 
+// ---------------------------------------------------------------------------
+// hash-to-curve entry points: deterministic, on the curve, in the subgroup
+
+#[derive(Clone, Debug, Serialize, Deserialize)]
+struct H2cCase {
+    #[serde(with = "hexbytes")]
+    msg: Vec<u8>,
+    domain: String,
+}
+
+fn h2c_one<F: Fam>(what: &str, f: &dyn Fn() -> F::G) -> Result<(), Failure> {
+    let m = F::model();
+    let a = vpcore::catch(f).map_err(|e| Failure::new(format!("{}:{what}:panic", F::GN), format!("{what} panicked: {e}")))?;
+    let b = f();
+    let (ma, mb) = (gm::<F>(what, &a)?, gm::<F>(what, &b)?);
+    ensure!(ma == mb, format!("{}:{what}:nondeterministic", F::GN), "two calls returned {ma:?} and {mb:?}");
+    ensure!(m.on_curve(&ma), format!("{}:{what}:off-curve", F::GN), "{what} returned {ma:?}");
+    ensure!(in_subgroup::<F>(&ma), format!("{}:{what}:non-subgroup", F::GN), "{what} returned {ma:?}, outside the prime-order subgroup");
+    Ok(())
+}
+
+fn h2c_family(p: &Prop) {
+    p.sub(
+        "hash_to_curve",
+        "message (0..64 bytes incl. empty) x domain string: inherent G1/G2 hash_to_curve and CurveExt::hash_to_curve (BLS G1, BN254 G1/G2) are deterministic, on the curve and in the prime-order subgroup (model); every case non-trivial",
+        p.tier.pick(64, 2_000),
+        16,
+        || (prop_oneof![1 => Just(vec![]), 6 => proptest::collection::vec(any::<u8>(), 0..64)], "[a-zA-Z0-9_-]{0,24}").prop_map(|(msg, domain)| H2cCase { msg, domain }).boxed(),
+        |c| {
+            use midnight_curves::{G1Projective, G2Projective};
+            let d = c.domain.as_bytes();
+            h2c_one::<BlsG1>("hash_to_curve", &|| G1Projective::hash_to_curve(&c.msg, d, b"aug"))?;
+            h2c_one::<BlsG2>("hash_to_curve", &|| G2Projective::hash_to_curve(&c.msg, d, b""))?;
+            h2c_one::<BlsG1>("CurveExt::hash_to_curve", &|| <G1Projective as CurveExt>::hash_to_curve(&c.domain)(&c.msg))?;
+            h2c_one::<BnG1>("CurveExt::hash_to_curve", &|| <bn256::G1 as CurveExt>::hash_to_curve(&c.domain)(&c.msg))?;
+            h2c_one::<BnG2>("CurveExt::hash_to_curve", &|| <bn256::G2 as CurveExt>::hash_to_curve(&c.domain)(&c.msg))?;
+            Ok(Verdict::nontrivial(if c.msg.is_empty() { "empty message" } else { "message" }))
+        },
+    );
+}
+
 fn other_families(p: &Prop) {
+    h2c_family(p);
     jub_family(p);
     secp_family(p);
     c25519_family(p);
